@@ -167,13 +167,16 @@ void Logging::log( const std::string& log_name, const detail::LogMsg& msg)
 ///    The name of the attribute.
 /// @param[in]  value
 ///    The value for the attribute.
+/// @return
+///    The unique id of the new attribute, can be passed to
+///    removeAttributeById() to remove exactly this attribute again.
 /// @since
 ///    1.15.0, 10.10.2018
-void Logging::addAttribute( const std::string& name, const std::string& value)
+detail::LogAttributesContainer::attr_id_t
+   Logging::addAttribute( const std::string& name, const std::string& value)
 {
 
-   mAttributes.addAttribute( name, value);
-
+   return mAttributes.addAttribute( name, value);
 } // Logging::addAttribute
 
 
@@ -190,6 +193,21 @@ void Logging::removeAttribute( const std::string& attr_name)
    mAttributes.removeAttribute( attr_name);
 
 } // Logging::removeAttribute
+
+
+
+/// Removes exactly the attribute with the given id, even if other
+/// attributes with the same name were added afterwards.
+///
+/// @param[in]  attr_id
+///    The id of the attribute as returned by addAttribute().
+void Logging::removeAttributeById(
+   detail::LogAttributesContainer::attr_id_t attr_id)
+{
+
+   mAttributes.removeAttributeById( attr_id);
+
+} // Logging::removeAttributeById
 
 
 
